@@ -108,7 +108,7 @@ def chain(ctx) -> None:
     shared.stmt_under(ctx, 'C04.chain', get, "return b''", [('self.tag.training', False)], 'a generation that was never trained hands out the empty state (the actor stays untrained)', 'Generation.get:untrained', inlined=False, siblings=False)
     shared.stmt_under(ctx, 'C04.chain', get, f'{k} = self.tag.states[{k}]', [(f'isinstance({k}, int)', True)], 'a position is translated through the ordered state list', 'Generation.get:index', inlined=False, siblings=False)
     rs = [r for r in core.walk_local(get.node) if isinstance(r, ast.Raise)]
-    ctx.check(len(rs) == 1 and cfg.cguards(rs[0], get.node) == [(f'{k} not in self.tag.states', True)], 'C04.chain', get, 'a state id that the tag does not list is refused', rs[0] if rs else get.node, key='Generation.get:unknown')
+    ctx.check(len(rs) == 1 and cfg.cguards(rs[0], get.node) == cfg.cg((f'{k} not in self.tag.states', True)), 'C04.chain', get, 'a state id that the tag does not list is refused', rs[0] if rs else get.node, key='Generation.get:unknown')
     sc = prog.func(f'{ACCESS}:State.commit')
     shared.stmt_under(ctx, 'C04.chain', sc, 'self._generation = self._generation.release.put((self._tag or self._generation.tag).replace(states=states))', [], 'the committed tag is the given one (else the generation\'s) with exactly the committed state ids, in order', 'State.commit:tag', siblings=False)
     si = prog.func(f'{ACCESS}:State.__init__')
